@@ -26,7 +26,7 @@ UNITS = {
     'unitN': {'spec': 'unitN.vrs'},
     'unitH': {'spec': 'unitH.vrs'},
     'unitK': {'spec': 'unitK.vrs'},
-    'unitT': {'spec': 'unitT.vrs', 'expanded': True},
+    'unitT': {'spec': 'unitT.vrs', 'expanded': True, 'rlimit': 60},
     'unitL': {'kind': 'kani', 'leaves': ['L.parse.size_prefix_len']},
     'unitF': {'spec': 'unitF.vrs', 'expanded': True, 'threads': 8},
     'unitC': {'spec': 'unitC.vrs', 'expanded': True, 'threads': 16, 'timeout': 2400},
